@@ -187,9 +187,10 @@ theorem fromI64_sem_tr (F : Sem) (v : Int) : (fromI64 F v).sem = F := by
   · exact fromU64_sem_tr _ _
   · exact fromU64_sem_tr _ _
 
-theorem piLoop_sem (fuel : Nat) (a b t x a' t' : Flt) (h : piLoop fuel a b t x = some (a', t')) :
+theorem piLoop_sem (fuel : Nat) (a b t x gap a' t' : Flt)
+    (h : piLoop fuel a b t x gap = some (a', t')) :
     a'.sem = a.sem := by
-  induction fuel generalizing a b t x with
+  induction fuel generalizing a b t x gap with
   | zero => simp [piLoop] at h
   | succ fuel ih =>
     simp only [piLoop] at h
@@ -197,7 +198,9 @@ theorem piLoop_sem (fuel : Nat) (a b t x a' t' : Flt) (h : piLoop fuel a b t x =
     · cases h; rfl
     · split at h
       · cases h
-      · rw [ih _ _ _ _ h, scale_sem_tr, add_sem_tr]
+      · split at h
+        · cases h; rw [scale_sem_tr, add_sem_tr]
+        · rw [ih _ _ _ _ _ h, scale_sem_tr, add_sem_tr]
 
 /-- the result of `pi` has the requested format -/
 theorem piFuel_sem (fuel : Nat) (F : Sem) (r : Flt) (h : piFuel fuel F = some r) : r.sem = F := by
@@ -221,7 +224,7 @@ theorem piFuel_canonical (fuel : Nat) (F : Sem) (hF : F.WF) (r : Flt) (h : piFue
     · cases h
     · rename_i s2 _ a t hl
       cases h
-      have ha : a.sem = F.growLog 4 := (piLoop_sem _ _ _ _ _ _ _ hl).trans (fromI64_sem_tr _ _)
+      have ha : a.sem = F.growLog 4 := (piLoop_sem _ _ _ _ _ _ _ _ hl).trans (fromI64_sem_tr _ _)
       have hW : (a.sqr).sem.WF := by rw [sqr_sem_tr, ha]; exact Sem.growLog_WF hF 4
       exact (cast_canonical _ F hF (div_canonical a.sqr t hW).1).1
 
